@@ -194,6 +194,11 @@ def build_stream(name, log):
     else:
         cmd += ['-o', out, st['pkg']]
     p = subprocess.run(cmd, cwd=cwd, env=env, capture_output=True, text=True, timeout=900)
+    if p.returncode != 0 and re.search(r'undefined: frameLogInterval', p.stderr) and '-tags' in cmd:
+        # optional hook: the daemon no longer has the package variables the harness puts back between connections
+        cmd2 = list(cmd)
+        cmd2[cmd2.index('-tags') + 1] = 'verif,verif_nologvars'
+        p = subprocess.run(cmd2, cwd=cwd, env=env, capture_output=True, text=True, timeout=900)
     for tmp in glob.glob(os.path.join(BUILD, f'overlay_{name}.{os.getpid()}.json')):
         os.unlink(tmp)
     if p.returncode != 0:
